@@ -96,8 +96,8 @@ fn check_bits(fmt: Fmt, bits: u64, cfg: &Cfg, stats: &mut Stats) -> Result<(), F
 pub fn run(ctx: &Ctx) -> i32 {
     let mut rep = Report::new(
         "All 2^32 f32 bit patterns are enumerated on every run (default configuration; every 64th pattern also in the \
-         other 7). f64: all 2048 biased exponents x both signs x mantissas {0,1,2,3,2^51,2^52-2,2^52-1 and 64 \
-         seed-derived random mantissas} in all 8 configurations, plus 2^24 (quick) / 2^30 (thorough) patterns from a \
+         other 7). f64: all 2048 biased exponents x both signs x mantissas {0,1,2,3,2^51,2^52-2,2^52-1, checkerboards, every single-one / single-zero / low-run / \
+         high-run pattern, and 64 seed-derived random mantissas} in all 8 configurations, plus 2^24 (quick) / 2^30 (thorough) patterns from a \
          seed-derived full-period sequence over 2^64. Oracle: an independent decode written from the IEEE-754 layout \
          with literal field widths, plus an arithmetic confirmation (mantissa() as f64 scaled by two exact powers of \
          two equals |x|); to_bits/from_bits lossless incl. NaN payloads; is_denormal exact for non-zero values; \
@@ -118,7 +118,16 @@ pub fn run(ctx: &Ctx) -> i32 {
     let mut distinct = r.stats.evaluations;
     rep.absorb(r);
     // f64 structured grid
-    let mut mants: Vec<u64> = vec![0, 1, 2, 3, 1 << 51, (1 << 52) - 2, (1 << 52) - 1];
+    let mut mants: Vec<u64> = vec![0, 1, 2, 3, 1 << 51, (1 << 52) - 2, (1 << 52) - 1, 0x5555555555555, 0xAAAAAAAAAAAAA, 0x3333333333333, 0xCCCCCCCCCCCCC, 0x0F0F0F0F0F0F0, 0xF0F0F0F0F0F0F];
+    for j in 0..52u32 {
+        let all = (1u64 << 52) - 1;
+        mants.push(1u64 << j); // a single one
+        mants.push(all ^ (1u64 << j)); // a single zero
+        mants.push((1u64 << j) - 1); // low run of ones
+        mants.push(all ^ ((1u64 << j) - 1)); // high run of ones
+    }
+    mants.sort_unstable();
+    mants.dedup();
     let mut s = ctx.seed;
     for _ in 0..64 {
         s = gen::mix(s);
